@@ -42,6 +42,8 @@ alphabet!(LlDst {
     PanBcastShortBcast => "pan-bcast/short-bcast",
     PanOtherExtOwn => "pan-other/ext-own",
     PanOtherShortBcast => "pan-other/short-bcast",
+    NoDstSrcPanOther => "no-dst-addressing/src-pan-other",
+    NoDstSrcPanOwn => "no-dst-addressing/src-pan-own",
 });
 alphabet!(Dst {
     Own => "own",
@@ -56,6 +58,11 @@ alphabet!(Dst {
     GroupU => "group-never-joined",
     Unspec => "unspecified",
     Loopback => "loopback",
+    ForeignGlobalLow16 => "foreign-global-sharing-low-16-bits",
+    ForeignGlobalLow24 => "foreign-global-sharing-low-24-bits",
+    ForeignLinkLocalLow24 => "foreign-linklocal-sharing-low-24-bits",
+    SolNodeForeign => "solicited-node-shaped-not-ours",
+    McastLast3Ours => "non-solicited-node-multicast-ending-like-ours",
 });
 alphabet!(Src {
     OnLink => "onlink",
@@ -66,6 +73,12 @@ alphabet!(Src {
     Mcast => "multicast",
     Loopback => "loopback",
     Own => "own",
+});
+alphabet!(Port {
+    Match => "matching",
+    NoMatch => "not-matching",
+    DstZero => "dst-port-0",
+    SrcZero => "src-port-0-dst-matching",
 });
 alphabet!(Sock { NoSock => "none", Std => "std", Raw => "std+raw", Bound => "addr-bound", Dns => "std+dns" });
 alphabet!(Prefix {
@@ -170,6 +183,20 @@ pub fn dst_addr(ver: Ver, d: Dst) -> Option<Addr> {
         (Ver::V6, Dst::Unspec) => Addr::V6([0; 16]),
         (Ver::V4, Dst::Loopback) => Addr::V4([127, 0, 0, 1]),
         (Ver::V6, Dst::Loopback) => Addr::V6(v6(0, 0, 0, 1)),
+        // IPv6 look-alikes of our addresses fe80::1 / 2001:db8::1 (low 24 bits 00:00:01). None
+        // of them is an address of the interface or a group it listens to.
+        (Ver::V4, Dst::ForeignGlobalLow16 | Dst::ForeignGlobalLow24 | Dst::ForeignLinkLocalLow24 | Dst::SolNodeForeign | Dst::McastLast3Ours) => return None,
+        // 2001:db8:aaaa::55:1 — last two octets 00:01 as ours, third-last differs
+        (Ver::V6, Dst::ForeignGlobalLow16) => Addr::V6([0x20, 0x01, 0x0d, 0xb8, 0xaa, 0xaa, 0, 0, 0, 0, 0, 0, 0, 0x55, 0, 1]),
+        // 2001:db8:aaaa::1 — last three octets as ours
+        (Ver::V6, Dst::ForeignGlobalLow24) => Addr::V6([0x20, 0x01, 0x0d, 0xb8, 0xaa, 0xaa, 0, 0, 0, 0, 0, 0, 0, 0, 0, 1]),
+        // fe80::1:0:0:1 — on-link, last three octets as ours
+        (Ver::V6, Dst::ForeignLinkLocalLow24) => Addr::V6([0xfe, 0x80, 0, 0, 0, 0, 0, 0, 0, 1, 0, 0, 0, 0, 0, 1]),
+        // ff02::1:ff55:1 — solicited-node shaped, low 24 bits 55:00:01 match none of ours (low
+        // 16 bits do)
+        (Ver::V6, Dst::SolNodeForeign) => Addr::V6([0xff, 2, 0, 0, 0, 0, 0, 0, 0, 0, 0, 1, 0xff, 0x55, 0, 1]),
+        // ff05::1:ff00:1 — NOT ff02::1:ff00:0/104, but the last three octets equal ours
+        (Ver::V6, Dst::McastLast3Ours) => Addr::V6([0xff, 5, 0, 0, 0, 0, 0, 0, 0, 0, 0, 1, 0xff, 0, 0, 1]),
     })
 }
 
@@ -194,7 +221,25 @@ impl Dst {
     /// broadcast or multicast destination class (by construction of the address, not by asking
     /// the stack)
     pub fn is_bcast_mcast(self) -> bool {
-        matches!(self, Dst::SubnetBcast | Dst::LimitedBcast | Dst::AllNodes | Dst::SolNode | Dst::GroupG | Dst::GroupU)
+        matches!(
+            self,
+            Dst::SubnetBcast | Dst::LimitedBcast | Dst::AllNodes | Dst::SolNode | Dst::GroupG | Dst::GroupU | Dst::SolNodeForeign | Dst::McastLast3Ours
+        )
+    }
+    /// foreign unicast address or a multicast group that is never joined (R1), independent of
+    /// whether group G is joined
+    pub fn is_always_foreign(self) -> bool {
+        matches!(
+            self,
+            Dst::OtherOnLink
+                | Dst::OffLink
+                | Dst::GroupU
+                | Dst::ForeignGlobalLow16
+                | Dst::ForeignGlobalLow24
+                | Dst::ForeignLinkLocalLow24
+                | Dst::SolNodeForeign
+                | Dst::McastLast3Ours
+        )
     }
 }
 impl Src {
@@ -228,7 +273,7 @@ pub struct First {
     pub ll: LlDst,
     pub dst: Dst,
     pub src: Src,
-    pub port_match: bool,
+    pub port: Port,
 }
 
 /// One cell of the table (plus the base configuration it runs on).
@@ -240,7 +285,7 @@ pub struct Cell {
     pub ll: LlDst,
     pub dst: Dst,
     pub src: Src,
-    pub port_match: bool,
+    pub port: Port,
     pub sock: Sock,
     pub joined: bool,
     pub primed: bool,
@@ -248,14 +293,26 @@ pub struct Cell {
     pub auto_first: Option<First>,
 }
 
+fn port_from_json(v: &Value) -> Option<Port> {
+    if let Some(s) = v.get("port").and_then(|x| x.as_str()) {
+        return Port::from_name(s);
+    }
+    // artefacts written before the port dimension had more than two values
+    v.get("port_match").and_then(|x| x.as_bool()).map(|b| if b { Port::Match } else { Port::NoMatch })
+}
+
 impl Cell {
+    /// destination port / ident / embedded port / NS target matches the open sockets
+    pub fn pm(&self) -> bool {
+        matches!(self.port, Port::Match | Port::SrcZero)
+    }
     pub fn to_json(&self) -> Value {
         json!({
             "medium": self.med.name(), "ip_version": self.ver.name(), "kind": self.kind.name(),
             "ll_dst": self.ll.name(), "dst": self.dst.name(), "src": self.src.name(),
-            "port_match": self.port_match, "sockets": self.sock.name(), "group_g_joined": self.joined,
+            "port": self.port.name(), "sockets": self.sock.name(), "group_g_joined": self.joined,
             "neighbors_primed": self.primed, "prefix": self.prefix.name(),
-            "first_cell": self.auto_first.map(|f| json!({"kind": f.kind.name(), "ll_dst": f.ll.name(), "dst": f.dst.name(), "src": f.src.name(), "port_match": f.port_match})),
+            "first_cell": self.auto_first.map(|f| json!({"kind": f.kind.name(), "ll_dst": f.ll.name(), "dst": f.dst.name(), "src": f.src.name(), "port": f.port.name()})),
         })
     }
     pub fn from_json(v: &Value) -> Option<Cell> {
@@ -268,7 +325,7 @@ impl Cell {
             ll: LlDst::from_name(s("ll_dst")?)?,
             dst: Dst::from_name(s("dst")?)?,
             src: Src::from_name(s("src")?)?,
-            port_match: b("port_match")?,
+            port: port_from_json(v)?,
             sock: Sock::from_name(s("sockets")?)?,
             joined: b("group_g_joined")?,
             primed: b("neighbors_primed")?,
@@ -281,7 +338,7 @@ impl Cell {
                         ll: LlDst::from_name(fs("ll_dst")?)?,
                         dst: Dst::from_name(fs("dst")?)?,
                         src: Src::from_name(fs("src")?)?,
-                        port_match: f.get("port_match").and_then(|x| x.as_bool())?,
+                        port: port_from_json(f)?,
                     })
                 }
                 _ => None,
@@ -290,13 +347,13 @@ impl Cell {
     }
     pub fn describe(&self) -> String {
         let first = match &self.auto_first {
-            Some(f) => format!(" first-cell=[{} ll={} dst={} src={} port_match={}]", f.kind.name(), f.ll.name(), f.dst.name(), f.src.name(), f.port_match),
+            Some(f) => format!(" first-cell=[{} ll={} dst={} src={} port={}]", f.kind.name(), f.ll.name(), f.dst.name(), f.src.name(), f.port.name()),
             None => String::new(),
         };
         format!(
-            "{} {} {} ll={} dst={} src={} port_match={} sockets={} joined={} primed={} prefix={}{}",
+            "{} {} {} ll={} dst={} src={} port={} sockets={} joined={} primed={} prefix={}{}",
             self.med.name(), self.ver.name(), self.kind.name(), self.ll.name(), self.dst.name(), self.src.name(),
-            self.port_match, self.sock.name(), self.joined, self.primed, self.prefix.name(), first
+            self.port.name(), self.sock.name(), self.joined, self.primed, self.prefix.name(), first
         )
     }
 }
